@@ -111,7 +111,53 @@ def error_sites():
     return sorted(set(sites)), sorted(set(forwards))
 
 
+def token_kinds():
+    """token kinds the parsing package can emit (dict literals with a constant "type"), with their keys;
+    kinds `_render_content` has a branch for; kinds the graph walker has a branch for"""
+    emitted = {}
+    base = os.path.join(REPO, "bardic", "compiler", "parsing")
+    for fn in sorted(os.listdir(base)):
+        if not fn.endswith(".py"):
+            continue
+        tree = ast.parse(open(os.path.join(base, fn)).read())
+        for n in ast.walk(tree):
+            if isinstance(n, ast.Dict):
+                keys = [k.value for k in n.keys if isinstance(k, ast.Constant)]
+                if "type" in keys:
+                    v = n.values[keys.index("type")] if len(keys) == len(n.keys) else None
+                    for k, val in zip(n.keys, n.values):
+                        if isinstance(k, ast.Constant) and k.value == "type" and isinstance(val, ast.Constant):
+                            emitted.setdefault(val.value, set()).update(keys)
+    def compared(path, func_name):
+        tree = ast.parse(open(os.path.join(REPO, path)).read())
+        out = set()
+        for f in ast.walk(tree):
+            if isinstance(f, ast.FunctionDef) and f.name == func_name:
+                for n in ast.walk(f):
+                    if isinstance(n, ast.Compare) and len(n.comparators) == 1 and isinstance(n.comparators[0], ast.Constant) \
+                            and isinstance(n.comparators[0].value, str):
+                        src = ast.unparse(n.left)
+                        if "type" in src:
+                            out.add(n.comparators[0].value)
+        return out
+    engine = compared("bardic/runtime/engine.py", "_render_content") | compared("bardic/runtime/engine.py", "_execute_commands")
+    graph = compared("bardic/cli/graph.py", "extract_connections")
+    return emitted, engine, graph
+
+
 def regenerate():
+    emitted, engine, graph = token_kinds()
+    def ql(xs):
+        return "[" + ", ".join('"' + x + '"' for x in sorted(xs)) + "]"
+    _write("TokenKinds.lean",
+           "/-! GENERATED by harness/extract.py from /repo on every run — do not edit. -/\n"
+           "namespace Bardic.Extracted\n\n"
+           "/-- token kinds the parser can emit, with the keys of the emitted dict literal -/\n"
+           "def emittedKinds : List (String × List String) := [\n" +
+           ",\n".join(f'  ("{k}", {ql(v)})' for k, v in sorted(emitted.items())) + "\n]\n\n"
+           f"/-- kinds `_render_content` / `_execute_commands` have a branch for -/\ndef engineKinds : List String := {ql(engine)}\n\n"
+           f"/-- kinds the walker of `extract_connections` has a branch for -/\ndef graphKinds : List String := {ql(graph)}\n\n"
+           "end Bardic.Extracted\n")
     sites, forwards = error_sites()
     def qq(x):
         return '"' + str(x).replace('"', "'") + '"'
